@@ -164,3 +164,123 @@ def orientation_counts_rule(ctx, pa, rule):
         ok = r in appended
         ctx.check(ok, rule, pa.where(calls[0]), f"orientation counts are taken on the list of scaffold orientations (filled under the NO == 0 guard), not on `{r}`" if not ok else "orientation counts are taken on the list of scaffold orientations", key_of(pa, f"count-receiver:{r}"), receiver=r, sites=len(calls))
     ctx.check(len(recvs) == 1, rule, pa.where(), "the anchoring decision and the inversion flag count the same list", key_of(pa, f"count-receivers:{sorted(recvs)}"), receivers=sorted(recvs))
+
+
+
+# ---------------------------------------------------------------------------------------------
+# finite evaluation of predicates over the list of scaffold orientations
+# ---------------------------------------------------------------------------------------------
+
+
+class ListUnsupported(Exception):
+    pass
+
+
+def orientation_lists(maxlen=4):
+    import itertools
+
+    for n in range(maxlen + 1):
+        for combo in itertools.product(">", "<", repeat=1) if False else itertools.product("><", repeat=n):
+            yield list(combo)
+
+
+def eval_list_test(expr, olist, L, defs, depth=0):
+    """Value of `expr` when the local `olist` holds the list L (a tiny total interpreter: the list itself, count / index /
+    len / in / set / all / any / comparisons / and-or-not / constants; single-definition temporaries are looked
+    through).  Raises ListUnsupported for anything else."""
+
+    def ev(e, env, d):
+        if isinstance(e, ast.Constant):
+            return e.value
+        if isinstance(e, ast.Name):
+            if e.id == olist:
+                return L
+            if e.id in env:
+                return env[e.id]
+            ds = defs.get(e.id)
+            if ds and len(ds) == 1 and ds[0] is not None and d < 4:
+                return ev(ds[0], env, d + 1)
+            raise ListUnsupported(e.id)
+        if isinstance(e, ast.UnaryOp):
+            v = ev(e.operand, env, d)
+            if isinstance(e.op, ast.Not):
+                return not v
+            if isinstance(e.op, ast.USub):
+                return -v
+            raise ListUnsupported(norm(e))
+        if isinstance(e, ast.BoolOp):
+            v = None
+            for x in e.values:
+                v = ev(x, env, d)
+                if isinstance(e.op, ast.And) and not v:
+                    return v
+                if isinstance(e.op, ast.Or) and v:
+                    return v
+            return v
+        if isinstance(e, ast.Subscript):
+            base = ev(e.value, env, d)
+            try:
+                if isinstance(e.slice, ast.Slice):
+                    lo = ev(e.slice.lower, env, d) if e.slice.lower is not None else None
+                    hi = ev(e.slice.upper, env, d) if e.slice.upper is not None else None
+                    st = ev(e.slice.step, env, d) if e.slice.step is not None else None
+                    return base[lo:hi:st]
+                return base[ev(e.slice, env, d)]
+            except (IndexError, TypeError, KeyError):
+                raise ListUnsupported("subscript out of range: " + norm(e))
+        if isinstance(e, ast.Call):
+            if isinstance(e.func, ast.Attribute) and e.func.attr == "count" and len(e.args) == 1:
+                return ev(e.func.value, env, d).count(ev(e.args[0], env, d))
+            if isinstance(e.func, ast.Attribute) and e.func.attr == "index" and len(e.args) == 1:
+                try:
+                    return ev(e.func.value, env, d).index(ev(e.args[0], env, d))
+                except ValueError:
+                    raise ListUnsupported("index of a missing element")
+            if isinstance(e.func, ast.Name) and e.func.id in ("len", "set", "list", "sorted", "any", "all", "bool", "sum", "max", "min", "tuple", "reversed") and e.args:
+                a = [ev(x, env, d) for x in e.args]
+                try:
+                    fn = {"len": len, "set": set, "list": list, "sorted": sorted, "any": any, "all": all, "bool": bool, "sum": sum, "max": max, "min": min, "tuple": tuple, "reversed": lambda x: list(reversed(x))}[e.func.id]
+                    return fn(*a)
+                except (TypeError, ValueError) as ex:
+                    raise ListUnsupported(type(ex).__name__)
+            raise ListUnsupported(norm(e)[:40])
+        if isinstance(e, (ast.GeneratorExp, ast.ListComp, ast.SetComp)) and len(e.generators) == 1 and isinstance(e.generators[0].target, ast.Name):
+            g_ = e.generators[0]
+            out = []
+            for item in ev(g_.iter, env, d):
+                env2 = dict(env)
+                env2[g_.target.id] = item
+                if all(ev(c, env2, d) for c in g_.ifs):
+                    out.append(ev(e.elt, env2, d))
+            return set(out) if isinstance(e, ast.SetComp) else out
+        if isinstance(e, (ast.Tuple, ast.List, ast.Set)):
+            vals = [ev(x, env, d) for x in e.elts]
+            return set(vals) if isinstance(e, ast.Set) else (tuple(vals) if isinstance(e, ast.Tuple) else vals)
+        if isinstance(e, ast.Compare):
+            left = ev(e.left, env, d)
+            for op, r in zip(e.ops, e.comparators):
+                right = ev(r, env, d)
+                try:
+                    ok = {ast.Eq: lambda a, b: a == b, ast.NotEq: lambda a, b: a != b, ast.Lt: lambda a, b: a < b, ast.LtE: lambda a, b: a <= b, ast.Gt: lambda a, b: a > b, ast.GtE: lambda a, b: a >= b, ast.In: lambda a, b: a in b, ast.NotIn: lambda a, b: a not in b, ast.Is: lambda a, b: a is b, ast.IsNot: lambda a, b: a is not b}[type(op)](left, right)
+                except TypeError:
+                    raise ListUnsupported("TypeError in " + norm(e))
+                if not ok:
+                    return False
+                left = right
+            return True
+        if isinstance(e, ast.IfExp):
+            return ev(e.body, env, d) if ev(e.test, env, d) else ev(e.orelse, env, d)
+        raise ListUnsupported(norm(e)[:40])
+
+    return ev(expr, {}, depth)
+
+
+def scaffold_orientation_list(pa):
+    """name of the local list that collects the orientation sign of the scaffold nodes (the one appended to in the node loop
+    and read by the decisions after it)"""
+    cands = {}
+    for c in walk_own(pa.node):
+        if isinstance(c, ast.Call) and isinstance(c.func, ast.Attribute) and c.func.attr == "append" and isinstance(c.func.value, ast.Name) and len(c.args) == 1 and isinstance(c.args[0], ast.Name):
+            cands.setdefault(c.func.value.id, []).append(c)
+    names = [k for k in cands if "orient" in k or "dir" in k or "strand" in k] or list(cands)
+    return names[0] if len(names) == 1 else None
